@@ -120,8 +120,10 @@ CLAIMED = {
     'C13': dict(
         text='Accelerator arithmetic only. LoadTracer.dec_a is shown equal to the DEC A: JR/JP NZ loop it replaces by induction over A from an arbitrary state (accelerated(S) == accelerated(real iteration(S)) when the loop repeats, == the real instructions '
              'falling through otherwise; all registers incl. F, R, T, PC and memory), using the real Simulator closures; the C dec_a handler (LLVM IR) is shown equal to the Python one. For each of the 53 sampling-loop signatures in loadsample.ACCELERATORS '
-             'the signature code is executed symbolically for one trip round the loop (no edge, IN value symbolic): T delta == loop_time, R advance == loop_r_inc, counter +-1, memory untouched, back at the IN instruction.',
-        note='Outside: the fast-forward count and edge bookkeeping of _read_port, whole-tape loads, fast_load vs the ROM routine, the C read_port/advance_tape, pause/first-edge options. Assumes an absolute jump closing a loop targets the signature start; '
+             'the signature code is executed symbolically for one trip round the loop (no edge, IN value symbolic): T delta == loop_time, R advance == loop_r_inc, counter +-1, memory untouched, back at the IN instruction. '
+             'The fast-forward itself (LoadTracer._read_port with a matching accelerator; quick: every 5th accelerator, thorough: all 53) runs on a symbolic clock, next-edge distance (-1000..60000 T), counter, R and EAR register: the state moves by a whole number n of trips, '
+             'no skipped sample lies after the edge, the counter does not reach its end value, flags are those of the last INC/DEC, and the returned EAR bit matches the edge index after the fast-forward.',
+        note='Outside: the C read_port/advance_tape fast-forward, whole-tape loads, fast_load vs the ROM routine, the C read_port/advance_tape, pause/first-edge options. Assumes an absolute jump closing a loop targets the signature start; '
              'wildcard bytes fixed to 0 (they are never executed on a trip round the loop).',
         design='4 (C13)', technique=TECH + '; induction over the loop counter; Engine B for the C handler', engine='symx+llsym'),
     'C10': dict(
